@@ -1,7 +1,7 @@
 // models/C15_tol.hpp -- tolerance schedule of the C15 harness, in units of eps = 2^-52 (DESIGN.md Appendix B).
 // "documented x 2" where the documentation gives a figure; otherwise calibrated once to 4 x the worst error observed on
 // the unchanged tree (floor 16 eps) and frozen.  Tolerances are scheduled per REGIME (ellipsoid: small |f| <= 1/150,
-// moderate b/a in {1/2, 2}, extreme b/a in {0.01, 100}; elliptic parameters: moderate, alpha2-large-negative, alpha2-near-one,
+// moderate 0.1 < b/a <= 2, extreme b/a <= 0.1 or b/a > 2; elliptic parameters: moderate, alpha2-large-negative, alpha2-near-one,
 // extreme, tiny-complement, kp2-below-1e-100; Carlson arguments: compact, spread, extreme -- defined in props/C15.cpp) so that
 // the bound used for terrestrial ellipsoids and ordinary parameters is not diluted by the corners of the lattices.
 // The observed worst values are reported in evidence/C15.json (worst{}), as observed/tolerance.
@@ -111,7 +111,9 @@ static const C15TolRow C15_TOL[] = {
   {"jacobi", "tiny-complement", 32768},                                  // observed 7.6e+03 eps
   {"*", "*", 64},
 };
-inline double C15tol(const std::string& pred, const std::string& regime) {
+inline double C15tol(const std::string& pred, const std::string& regime0) {
+  // the regime kp2-below-1e-24 (1e-100 <= k'^2 < 1e-24, added with the deep thorough tier) uses the rows calibrated for kp2-below-1e-100
+  const std::string regime = regime0 == "kp2-below-1e-24" ? "kp2-below-1e-100" : regime0;
   double star = -1, any = 64;
   for (const C15TolRow& r : C15_TOL) {
     if (pred == r.pred && regime == r.regime) return r.eps;
